@@ -731,16 +731,28 @@ T.declare_ghost("last_response", Val)
 
 @TABLE.register("http.client.HTTPResponse.getheader")
 def _getheader(ex, st, args, kwargs, text):
-    """HTTPResponse.getheader(name, default): the header value or the default (opaque)"""
+    """HTTPResponse.getheader(name, default): the header value or the default (opaque); a truthy Content-Length means that the
+    body is delimited (reading it cannot wait for the peer to close the connection)"""
     r, name = ex.lift(args[0]), ex.lift(args[1])
-    return [(st, ("val", header_of(r, Val.s(name))))]
+    st = st.copy()
+    val = header_of(r, Val.s(name))
+    st.assume(z3.Implies(z3.And(Val.s(name) == z3.StringVal("content-length"), V.truthy(val)), body_delimited(Val.ref(r))))
+    return [(st, ("val", val))]
+
+
+body_delimited = z3.Function("body_delimited", z3.IntSort(), z3.BoolSort())
 
 
 @TABLE.register("http.client.HTTPResponse.read")
 def _resp_read(ex, st, args, kwargs, text):
-    """HTTPResponse.read(): records the response in ghost `drained`; returns bytes or raises any exception"""
+    """HTTPResponse.read(): records the response in ghost `drained`; returns bytes or raises any exception.  REQUIRES that the
+    body is delimited (obligation pre-of[HTTPResponse.read:body_is_delimited]): without a declared length http.client reads
+    until the peer closes, which a peer that keeps the connection open never does - the call would neither return nor raise"""
+    from pyvc.symexec import Obligation
     r = ex.lift(args[0])
     st = st.copy()
+    st.obligations.append(Obligation("%s/pre-of[http.client.HTTPResponse.read:body_is_delimited]" % ex.env.fn.key, st.hyps(),
+                                     body_delimited(Val.ref(r)), st.sig, "pre-of", "body_is_delimited", ex.env.contract.props))
     TABLE.ghost_append(st, "drained", r)
     s_ex = st.copy()
     s_ex.sig.append("read:raise")
